@@ -1,10 +1,365 @@
-import DryocVerif.Model.PwhashStr
-import DryocVerif.Proofs.Base64Lemmas
-namespace DryocVerif.Properties.C09
-open DryocVerif
+import DryocVerif.Proofs.Argon2Spec
+/-
+C09 — Argon2 (`src/argon2.rs`) and `crypto_pwhash` (`src/classic/crypto_pwhash.rs`).
+Property theorems only; helper lemmas live in `DryocVerif/Proofs/Argon2.lean` (the model
+computes, without panicking, the pure functions `…N`) and `DryocVerif/Proofs/Argon2Spec.lean`
+(those pure functions are the RFC-structured specification `Spec.Argon2.argon2`).
 
-/-- base64 (no padding) decoding inverts encoding for every byte string -/
-theorem b64_roundtrip (bs : Bytes) : Spec.Base64.decodeChars (Spec.Base64.encodeChars bs) = some bs :=
-  Spec.Base64.decode_encode bs
+The model (`DryocVerif/Model/Argon2.lean`) follows argon2.rs function by function; every checked
+`u32`/`u64`/`usize` operation, every slice index and every `assert!` is an explicit
+`Outcome.panic`, every `Err` an `Outcome.err`, so the statements below are about the arithmetic
+the Rust code actually performs.
+-/
+namespace DryocVerif.Properties.C09
+open DryocVerif DryocVerif.Model.Argon2
+open DryocVerif.Proofs.Argon2 (Valid PwhashValid InstInv PosInv OffInv currAt prevAt refAreaSizeN
+  startPositionN rfcRelative refIndexN stepMem argon2HashN mkInstance bigInst)
+
+/-! ### 1. Parameter validation -/
+
+/-- `Argon2Context::new` returns `Err` exactly on the complement of the accepted ranges
+(`Valid`: `16 ≤ outlen ≤ 2^32−1`, `|pwd| ≤ 2^32−1`, `8 ≤ |salt| ≤ 2^32−1`, optional secret / ad
+`≤ 2^32−1`, `1 ≤ lanes ≤ 0xFFFFFF`, `8 ≤ m_cost ≤ 2^32−1`, `1 ≤ t_cost ≤ 2^32−1`). -/
+theorem validate_iff (outlen pwdlen saltlen : Nat) (secretlen adlen : Option Nat) (t m p : Nat) :
+    validate outlen pwdlen saltlen secretlen adlen t m p = .err ↔
+      ¬ Valid outlen pwdlen saltlen secretlen adlen t m p :=
+  Proofs.Argon2.validate_err_iff ..
+
+theorem validate_ok_iff (outlen pwdlen saltlen : Nat) (secretlen adlen : Option Nat) (t m p : Nat) :
+    validate outlen pwdlen saltlen secretlen adlen t m p = .ok () ↔
+      Valid outlen pwdlen saltlen secretlen adlen t m p :=
+  Proofs.Argon2.validate_ok_iff ..
+
+theorem validate_never_panics (outlen pwdlen saltlen : Nat) (secretlen adlen : Option Nat) (t m p : Nat) :
+    validate outlen pwdlen saltlen secretlen adlen t m p ≠ .panic :=
+  Proofs.Argon2.validate_ne_panic outlen pwdlen saltlen secretlen adlen t m p
+
+/-- `Valid` says nothing about `m_cost` relative to `lanes`: `m = 8, p = 4` is accepted although
+RFC 9106 (and the reference implementation: `ARGON2_MEMORY_TOO_LITTLE`) require `m ≥ 8p`. -/
+example : Valid 32 0 8 none none 1 8 4 := by constructor <;> simp
+
+/-- `argon2_hash` rejects exactly the invalid parameter sets — *when it gets as far as the
+validation*: `memory_blocks` / `segment_length` are computed first. -/
+theorem argon2Hash_err_iff {ty t m p : Nat} {pwd salt : Bytes} {secret ad : Option Bytes} {outlen : Nat}
+    (hp : 1 ≤ p) (hp' : p < 2 ^ 29) (hm : m < 2 ^ 32) (hout : outlen < 0xFFFFFFFF)
+    (h7 : 7 * (max m (8 * p) / (4 * p)) < 2 ^ 32 + 3) :
+    argon2Hash ty t m p pwd salt secret ad outlen = .err ↔
+      ¬ Valid outlen pwd.length salt.length (secret.map List.length) (ad.map List.length) t m p := by
+  constructor
+  · intro h hv
+    rw [Proofs.Argon2.argon2Hash_ok hv hout h7] at h
+    cases h
+  · exact Proofs.Argon2.argon2Hash_err hp hp' hm
+
+/-- **Finding (latent, crate-private).** `parallelism = 0` (and `parallelism ≥ 2^29`) make
+`argon2_hash` panic — division by zero in `memory_blocks / (parallelism * 4)` (resp. `u32`
+overflow of `8 * parallelism`) — *before* `Argon2Context::new` can return `Err`.  Unreachable
+through the public API, which always passes `parallelism = 1`. -/
+theorem argon2Hash_panics_before_validation {ty t m p : Nat} {pwd salt : Bytes}
+    {secret ad : Option Bytes} {outlen : Nat} (hm : m < 2 ^ 32) (hp : p = 0 ∨ 2 ^ 29 ≤ p) :
+    argon2Hash ty t m p pwd salt secret ad outlen = .panic :=
+  Proofs.Argon2.argon2Hash_panic hm hp
+
+/-- `crypto_pwhash`: for in-range limits the costs are `(t, m) = (opslimit, memlimit / 1024)` with
+no truncation, `parallelism = 1`, no secret, no associated data. -/
+theorem cryptoPwhash_unfold (outlen : Nat) (pwd salt : Bytes) (opslimit memlimit alg : Nat)
+    (halg : alg = 1 ∨ alg = 2) :
+    cryptoPwhash outlen pwd salt opslimit memlimit alg =
+      if (1 ≤ opslimit ∧ opslimit ≤ 4294967295) then
+        if (8192 ≤ memlimit ∧ memlimit ≤ 4398046510080) then
+          argon2Hash alg opslimit (memlimit / 1024) 1 pwd salt none none outlen
+        else .err
+      else .err :=
+  Proofs.Argon2.cryptoPwhash_eq outlen pwd salt opslimit memlimit alg halg
+
+/-- `crypto_pwhash` returns `Err` exactly outside `PwhashValid` (`1 ≤ opslimit ≤ 2^32−1`,
+`8192 ≤ memlimit ≤ 4398046510080`, `16 ≤ outlen ≤ 2^32−1`, `|pwd| ≤ 2^32−1`,
+`8 ≤ |salt| ≤ 2^32−1`) — under the two side conditions of `argon2Hash_no_panic`. -/
+theorem cryptoPwhash_validate_iff {outlen : Nat} {pwd salt : Bytes} {opslimit memlimit alg : Nat}
+    (halg : alg = 1 ∨ alg = 2) (hout : outlen < 0xFFFFFFFF)
+    (h7 : 7 * (memlimit / 1024 / 4) < 2 ^ 32 + 3) :
+    cryptoPwhash outlen pwd salt opslimit memlimit alg = .err ↔
+      ¬ PwhashValid outlen pwd.length salt.length opslimit memlimit := by
+  constructor
+  · intro h hv
+    rw [Proofs.Argon2.cryptoPwhash_ok halg hv hout h7] at h
+    cases h
+  · exact Proofs.Argon2.cryptoPwhash_err halg
+
+/-- invalid limits are always rejected with `Err`, whatever else holds -/
+theorem cryptoPwhash_rejects {outlen : Nat} {pwd salt : Bytes} {opslimit memlimit alg : Nat}
+    (halg : alg = 1 ∨ alg = 2) (hv : ¬ PwhashValid outlen pwd.length salt.length opslimit memlimit) :
+    cryptoPwhash outlen pwd salt opslimit memlimit alg = .err :=
+  Proofs.Argon2.cryptoPwhash_err halg hv
+
+/-! ### 2. Instance arithmetic -/
+
+/-- For `1 ≤ p < 2^29` and `m < 2^32` (in particular for every accepted parameter set:
+`p ≤ 0xFFFFFF`) the `u32` computations of `argon2_hash` do not overflow, and
+`segment_length = max(m, 8p) / 4p`, `memory_blocks = 4p·⌊max(m, 8p) / 4p⌋` — the RFC's `m'`. -/
+theorem memoryGeometry_eq {m p : Nat} (hp : 1 ≤ p) (hp' : p < 2 ^ 29) (hm : m < 2 ^ 32) :
+    memoryGeometry m p = .ok (max m (8 * p) / (4 * p) * (4 * p), max m (8 * p) / (4 * p)) :=
+  Proofs.Argon2.memoryGeometry_ok hp hp' hm
+
+/-- the geometry computation panics exactly for `p = 0` (division by zero) and `p ≥ 2^29`
+(`8 * p` overflows `u32`); there is no overflow witness among accepted parameters -/
+theorem memoryGeometry_panic_iff {m p : Nat} (hm : m < 2 ^ 32) :
+    memoryGeometry m p = .panic ↔ p = 0 ∨ 2 ^ 29 ≤ p :=
+  Proofs.Argon2.memoryGeometry_panic_iff hm
+
+/-- the instance built from accepted parameters: `segment_length ≥ 2`,
+`lane_length = 4·segment_length`, `memory_blocks = lanes·lane_length < 2^32`, and
+`Argon2Instance::new`'s `segment_length * 4` does not overflow -/
+theorem instance_invariants {ty t m p : Nat} (hp : 1 ≤ p) (hp' : p < 2 ^ 29) (hm : m < 2 ^ 32) :
+    let inst := mkInstance ty t m p
+    2 ≤ inst.segmentLength ∧ inst.laneLength = 4 * inst.segmentLength
+      ∧ inst.memoryBlocks = inst.lanes * inst.laneLength ∧ inst.memoryBlocks < 2 ^ 32
+      ∧ inst.memoryBlocks ≤ max m (8 * p)
+      ∧ Instance.new (max m (8 * p) / (4 * p) * (4 * p)) (max m (8 * p) / (4 * p)) ty t p = .ok inst := by
+  intro inst
+  have hI := Proofs.Argon2.mkInstance_inv (ty := ty) (t := t) hp hm hp'
+  refine ⟨hI.sl_ge, hI.ll_eq, hI.mb_eq, hI.mb_lt, Proofs.Argon2.memoryBlocks_le, ?_⟩
+  unfold Instance.new
+  have h4 : max m (8 * p) / (4 * p) * ARGON2_SYNC_POINTS < 2 ^ 32 := by
+    have h1 := hI.mb_lt; have h2 := hI.mb_eq; have h3 := hI.ll_eq; have h5 := hI.lanes_ge
+    have e : (mkInstance ty t m p).laneLength = max m (8 * p) / (4 * p) * ARGON2_SYNC_POINTS := rfl
+    have : (mkInstance ty t m p).laneLength ≤ (mkInstance ty t m p).lanes * (mkInstance ty t m p).laneLength :=
+      Nat.le_mul_of_pos_left _ h5
+    omega
+  rw [Proofs.Argon2.mulU32_ok h4]
+  rfl
+
+/-- satisfiable: `m = 13`, `p = 1` gives `segment_length = 3`, `lane_length = memory_blocks = 12` -/
+example : memoryGeometry 13 1 = .ok (12, 3) := by decide
+example : memoryGeometry 8 4 = .ok (32, 2) := by decide     -- `m < 8p` is bumped to `8p`
+example : InstInv (mkInstance 2 3 13 1) := Proofs.Argon2.mkInstance_inv (by decide) (by decide) (by decide)
+
+/-! ### 3. `index_alpha` -/
+
+/-- **No panic in `index_alpha`.**  Under the instance invariants and at every position
+`fill_segment` visits (`slice < 4`, `index < segment_length`, `index ≥ 2` in slice 0 of pass 0),
+for every `pseudo_rand < 2^32` and both values of `same_lane`: `reference_area_size ≥ 1`, no
+`u32` subtraction underflows, no `u32` addition or multiplication overflows, the result is
+`< lane_length` — **provided `7·segment_length − 3 < 2^32`** (the sum
+`start_position + relative_position` reaches `7·segment_length − 3`). -/
+theorem index_alpha_no_panic {inst : Instance} {pos : Position} {j1 : Nat} (sameLane : Bool)
+    (hsl : 2 ≤ inst.segmentLength) (hll : inst.laneLength = 4 * inst.segmentLength)
+    (h7 : 7 * inst.segmentLength < 2 ^ 32 + 3) (hp : PosInv inst pos) (hj : j1 < 2 ^ 32) :
+    ∃ r, indexAlpha inst pos j1 sameLane = .ok r ∧ r < inst.laneLength
+      ∧ referenceAreaSize inst pos sameLane = .ok (refAreaSizeN inst pos sameLane)
+      ∧ 1 ≤ refAreaSizeN inst pos sameLane := by
+  obtain ⟨h1, h2⟩ := Proofs.Argon2.indexAlpha_ok sameLane hsl hll h7 hp hj
+  obtain ⟨h3, h4, _⟩ := Proofs.Argon2.referenceAreaSize_ok sameLane hsl hll (by omega) hp
+  exact ⟨_, h1, h2, h3, h4⟩
+
+/-- **`index_alpha` is the RFC 9106 §3.4.2 mapping**:
+`(start + (|W| − 1 − (|W|·(J1² / 2^32)) / 2^32)) mod lane_length` with `|W| = reference_area_size`. -/
+theorem index_alpha_eq_rfc {inst : Instance} {pos : Position} {j1 : Nat} (sameLane : Bool)
+    (hsl : 2 ≤ inst.segmentLength) (hll : inst.laneLength = 4 * inst.segmentLength)
+    (h7 : 7 * inst.segmentLength < 2 ^ 32 + 3) (hp : PosInv inst pos) (hj : j1 < 2 ^ 32) :
+    indexAlpha inst pos j1 sameLane =
+      .ok ((startPositionN inst pos
+            + (refAreaSizeN inst pos sameLane - 1
+               - (refAreaSizeN inst pos sameLane * (j1 * j1 / 2 ^ 32)) / 2 ^ 32))
+           % inst.laneLength) :=
+  (Proofs.Argon2.indexAlpha_ok sameLane hsl hll h7 hp hj).1
+
+/-- … and that is `Spec.Argon2.refColumn` (the reference column of the RFC-structured
+specification).  The hypothesis `hsame` holds at every call site: in slice 0 of pass 0
+`fill_segment` forces `ref_lane = position.lane` (`same_lane_first_slice`), so the
+`same_lane = false` branch — where the Rust still returns `index − 1` while the RFC's `W` would
+be empty — is unreachable. -/
+theorem index_alpha_eq_spec {inst : Instance} {pos : Position} {j1 : Nat} (sameLane : Bool)
+    (c : Spec.Argon2.Params) (hq : c.q = inst.laneLength) (hs : c.sl = inst.segmentLength)
+    (hsl : 2 ≤ inst.segmentLength) (hll : inst.laneLength = 4 * inst.segmentLength)
+    (h7 : 7 * inst.segmentLength < 2 ^ 32 + 3) (hp : PosInv inst pos) (hj : j1 < 2 ^ 32)
+    (hsame : pos.pass = 0 → pos.slice = 0 → sameLane = true) :
+    indexAlpha inst pos j1 sameLane =
+      .ok (Spec.Argon2.refColumn c pos.pass pos.slice pos.index sameLane j1) := by
+  rw [(Proofs.Argon2.indexAlpha_ok sameLane hsl hll h7 hp hj).1,
+    Proofs.Argon2.refIndexN_eq_spec inst pos j1 sameLane c hq hs hsame]
+
+/-- in slice 0 of pass 0 the reference lane is the current lane -/
+theorem same_lane_first_slice (inst : Instance) (pos : Position) (w : UInt64)
+    (h0 : pos.pass = 0) (hs : pos.slice = 0) :
+    (Proofs.Argon2.refLaneN inst pos w == pos.lane) = true := by
+  unfold Proofs.Argon2.refLaneN
+  rw [if_pos ⟨h0, hs⟩]
+  exact beq_self_eq_true _
+
+/-- **Finding (theoretical).**  The side condition `7·segment_length − 3 < 2^32` is necessary:
+for the *accepted* parameters `m_cost = 2^32 − 1`, `parallelism = 1` (reachable through
+`crypto_pwhash` with `memlimit = CRYPTO_PWHASH_MEMLIMIT_MAX`; needs 4 TiB of memory) the
+instance has `segment_length = 2^30 − 1`, and at pass 1, slice 2, index `segment_length − 1`,
+`pseudo_rand = 0` the `u32` sum `start_position + relative_position = 7·(2^30−1) − 3`
+overflows: a panic with overflow checks, a wrong (non-RFC) reference index without. -/
+theorem index_alpha_overflow_witness :
+    memoryGeometry (2 ^ 32 - 1) 1 = .ok (bigInst.memoryBlocks, bigInst.segmentLength)
+      ∧ InstInv bigInst
+      ∧ PosInv bigInst { pass := 1, lane := 0, slice := 2, index := 2 ^ 30 - 2 }
+      ∧ indexAlpha bigInst { pass := 1, lane := 0, slice := 2, index := 2 ^ 30 - 2 } 0 true = .panic :=
+  ⟨Proofs.Argon2.bigInst_geometry, by constructor <;> decide, by constructor <;> decide,
+    Proofs.Argon2.indexAlpha_overflow_witness⟩
+
+/-- the hypotheses of `index_alpha_no_panic` are satisfiable (`m = 13`, `p = 1`) -/
+example : PosInv (mkInstance 2 3 13 1) { pass := 0, lane := 0, slice := 0, index := 2 } := by
+  constructor <;> decide
+example : indexAlpha (mkInstance 2 3 13 1) { pass := 0, lane := 0, slice := 0, index := 2 } 12345 true
+    = .ok 0 := by decide
+example : indexAlpha (mkInstance 2 3 13 1) { pass := 1, lane := 0, slice := 2, index := 2 } 0 true
+    = .ok 6 := by decide
+
+/-! ### 4. The offsets of `fill_segment` -/
+
+/-- **`offsets_in_range`.**  On a well-formed instance, for a segment `(lane < lanes, slice < 4)`:
+* the initial `curr_offset` / `prev_offset` are computed without `u32` overflow or underflow and
+  satisfy the loop invariant `OffInv` (`curr_offset = lane·lane_length + slice·segment_length + i`;
+  `prev_offset` is the cyclic predecessor except — transiently — at the second block of a lane);
+* at every iteration `i ∈ [starting_index, segment_length)` whose state satisfies the invariant:
+  the fix-up (`curr_offset − 1` when `curr_offset % lane_length = 1`) does not underflow and
+  yields `prevAt i`, the block before `currAt i` in the same lane, cyclically;
+  `currAt i < memory_blocks` and `prevAt i < memory_blocks`; the increments `+= 1` do not
+  overflow and re-establish the invariant. -/
+theorem offsets_in_range {inst : Instance} {pos : Position} (hI : InstInv inst)
+    (hl : pos.lane < inst.lanes) (hs : pos.slice < 4) :
+    (∃ curr prev, initialOffsets inst pos = .ok (curr, prev)
+        ∧ OffInv inst pos (startingIndex pos) curr prev)
+    ∧ ∀ i curr prev, i < inst.segmentLength → OffInv inst pos i curr prev →
+        curr = currAt inst pos i
+        ∧ fixPrevOffset inst curr prev = .ok (prevAt inst pos i)
+        ∧ currAt inst pos i < inst.memoryBlocks ∧ prevAt inst pos i < inst.memoryBlocks
+        ∧ prevAt inst pos i = pos.lane * inst.laneLength
+            + (pos.slice * inst.segmentLength + i + inst.laneLength - 1) % inst.laneLength
+        ∧ currAt inst pos i % inst.laneLength = pos.slice * inst.segmentLength + i
+        ∧ addU32 (currAt inst pos i) 1 = .ok (currAt inst pos i + 1)
+        ∧ addU32 (prevAt inst pos i) 1 = .ok (prevAt inst pos i + 1)
+        ∧ OffInv inst pos (i + 1) (currAt inst pos i + 1) (prevAt inst pos i + 1) := by
+  refine ⟨Proofs.Argon2.initialOffsets_ok hI hl hs, ?_⟩
+  intro i curr prev hi hinv
+  obtain ⟨h1, h2, h3⟩ := Proofs.Argon2.offInv_step hI hl hs hi
+  have hlt : pos.slice * inst.segmentLength + i < inst.laneLength := by
+    have := (Proofs.Argon2.segFacts hI hl hs).slice_le; omega
+  exact ⟨hinv.1, Proofs.Argon2.fixPrevOffset_ok hI hl hs hi hinv,
+    Proofs.Argon2.currAt_lt hI hl hs hi, Proofs.Argon2.prevAt_lt hI hl hs hi,
+    Proofs.Argon2.prevAt_cyclic hlt, Proofs.Argon2.currAt_mod hlt,
+    Proofs.Argon2.addU32_ok h1, Proofs.Argon2.addU32_ok h2, h3⟩
+
+/-- One whole iteration of the loop of `fill_segment` succeeds: every memory index
+(`prev_offset`, `curr_offset`, `lane_length·ref_lane + ref_index`, `pseudo_rands[i]`) is in
+bounds, no arithmetic panics, and the memory is updated at `currAt i` only. -/
+theorem fill_segment_iteration {inst : Instance} {pos : Position} {dia : Bool} {pr : Array UInt64}
+    {i curr prev : Nat} {mem : Array Block}
+    (hI : InstInv inst) (h7 : 7 * inst.segmentLength < 2 ^ 32 + 3)
+    (hl : pos.lane < inst.lanes) (hs : pos.slice < 4)
+    (hi0 : startingIndex pos ≤ i) (hi : i < inst.segmentLength)
+    (hmem : mem.size = inst.memoryBlocks) (hpr : dia = true → pr.size = inst.segmentLength)
+    (hinv : OffInv inst pos i curr prev) :
+    fillSegmentStep inst pos dia pr i (curr, prev, mem)
+      = .ok (currAt inst pos i + 1, prevAt inst pos i + 1, stepMem inst pos dia pr i mem) :=
+  Proofs.Argon2.fillSegmentStep_ok hI h7 hl hs hi0 hi hmem hpr hinv
+
+/-! ### 5. Addressing mode -/
+
+/-- `data_independent_addressing ↔ Argon2i ∨ (Argon2id ∧ pass = 0 ∧ slice < 2)` -/
+theorem addressing_mode (inst : Instance) (pos : Position)
+    (hty : inst.ty = Argon2i ∨ inst.ty = Argon2id) :
+    dataIndependentAddressing inst pos = true ↔
+      inst.ty = Argon2i ∨ (inst.ty = Argon2id ∧ pos.pass = 0 ∧ pos.slice < 2) :=
+  Proofs.Argon2.addressing_mode inst pos hty
+
+/-! ### 6. `longhash` (H′) -/
+
+/-- For every `outlen > 64`, in `longhash`'s `usize` arithmetic (`outlen' = outlen − 32`):
+neither `outlen'/32 − 2` (when `32 ∣ outlen'`) nor `outlen'/32 − 1` underflows;
+`chunk_count + 1 = ⌈outlen/32⌉ − 2 = r` of RFC 9106 §3.3 (the first 32-byte piece is written
+before the loop, so the loop runs `r − 1` times); `split_at_mut(chunk_count·32)` is in range;
+and the last piece has `outlen − 32·r ∈ (32, 64]` bytes, a legal BLAKE2b output length. -/
+theorem hprime_structure (outlen : Nat) (h : 64 < outlen) :
+    let outlen' := outlen - 32
+    let chunkCount := if outlen' % 32 = 0 then outlen' / 32 - 2 else outlen' / 32 - 1
+    let r := (outlen + 31) / 32 - 2
+    32 ≤ outlen ∧ (outlen' % 32 = 0 → 2 ≤ outlen' / 32) ∧ (outlen' % 32 ≠ 0 → 1 ≤ outlen' / 32)
+      ∧ chunkCount + 1 = r ∧ chunkCount * 32 ≤ outlen'
+      ∧ outlen' - chunkCount * 32 = outlen - 32 * r
+      ∧ 32 < outlen - 32 * r ∧ outlen - 32 * r ≤ 64 :=
+  Proofs.Argon2.longhash_arith outlen h
+
+/-- `longhash` is the RFC's `H'` whenever its two `assert!`s hold, and panics otherwise. -/
+theorem longhash_eq_hprime {outlen : Nat} (inp : Bytes) (h4 : 4 < outlen) (hmax : outlen < 0xFFFFFFFF) :
+    longhash outlen inp = .ok (Spec.Argon2.hprime outlen inp) :=
+  Proofs.Argon2.longhash_eq_hprime inp h4 hmax
+
+/-- **Finding (theoretical).**  `Argon2Context::new` accepts `outlen = 0xFFFFFFFF`
+(`ARGON2_MAX_OUTLEN`), but `longhash` asserts `output.len() < u32::MAX`: the whole memory is
+filled and then `argon2_finalize` panics (needs a 4 GiB output buffer). -/
+theorem longhash_panics_at_max_outlen (inp : Bytes) : longhash 0xFFFFFFFF inp = .panic :=
+  Proofs.Argon2.longhash_panic inp (.inr (Nat.le_refl _))
+
+/-! ### No panic on the whole path -/
+
+/-- **`argon2_hash` never panics and never errs on accepted parameters** (any `lanes`,
+including `8 ≤ m < 8·lanes`), provided `outlen ≠ u32::MAX` and `7·segment_length − 3 < 2^32`
+(`m ≲ 2.45·10^9` KiB for one lane): every checked operation, slice index and `assert!` of
+`argon2_hash`, `Argon2Instance::new`, `argon2_fill_first_blocks`, `generate_addresses`,
+`fill_segment`, `index_alpha`, `argon2_finalize` and `longhash` succeeds. -/
+theorem argon2Hash_no_panic {ty t m p : Nat} {pwd salt : Bytes} {secret ad : Option Bytes} {outlen : Nat}
+    (hv : Valid outlen pwd.length salt.length (secret.map List.length) (ad.map List.length) t m p)
+    (hout : outlen < 0xFFFFFFFF)
+    (h7 : 7 * (max m (8 * p) / (4 * p)) < 2 ^ 32 + 3) :
+    argon2Hash ty t m p pwd salt secret ad outlen
+      = .ok (argon2HashN ty t m p pwd salt secret ad outlen) :=
+  Proofs.Argon2.argon2Hash_ok hv hout h7
+
+/-- `crypto_pwhash` with valid arguments (`memlimit` below ≈ 2.28 TiB, `outlen ≠ u32::MAX`)
+returns `Ok` -/
+theorem cryptoPwhash_no_panic {outlen : Nat} {pwd salt : Bytes} {opslimit memlimit alg : Nat}
+    (halg : alg = 1 ∨ alg = 2)
+    (hv : PwhashValid outlen pwd.length salt.length opslimit memlimit)
+    (hout : outlen < 0xFFFFFFFF) (h7 : 7 * (memlimit / 1024 / 4) < 2 ^ 32 + 3) :
+    cryptoPwhash outlen pwd salt opslimit memlimit alg
+      = .ok (argon2HashN alg opslimit (memlimit / 1024) 1 pwd salt none none outlen) :=
+  Proofs.Argon2.cryptoPwhash_ok halg hv hout h7
+
+/-- the side condition covers every libsodium preset (`MEMLIMIT_SENSITIVE = 1 GiB`) and
+everything up to 2 TiB -/
+example : 7 * (2199023255552 / 1024 / 4) < 2 ^ 32 + 3 := by decide
+
+/-! ### 7. The model is RFC 9106 -/
+
+/-- **`fill_memory_model_eq_spec` (all lanes, not only `p = 1`).**  For Argon2i and Argon2id, every
+accepted parameter set with `m ≥ 8p` (the RFC's domain), `outlen ≠ u32::MAX` and
+`7·⌊m/4p⌋ − 3 < 2^32`: `argon2_hash` returns `Ok`, and the tag is the one computed by the
+RFC-9106-structured executable specification (which reproduces the RFC's test vectors) —
+`H0`, the first blocks, `generate_addresses`, `index_alpha`, `fill_block` (= `G`, resp. `G ⊕ old`),
+the `curr_offset`/`prev_offset` bookkeeping, the final XOR and `H'` included. -/
+theorem fill_memory_model_eq_spec {ty t m p : Nat} {pwd salt : Bytes} {secret ad : Option Bytes}
+    {outlen : Nat} (hty : ty = 1 ∨ ty = 2)
+    (hv : Valid outlen pwd.length salt.length (secret.map List.length) (ad.map List.length) t m p)
+    (hm8 : 8 * p ≤ m) (hout : outlen < 0xFFFFFFFF) (h7 : 7 * (m / (4 * p)) < 2 ^ 32 + 3) :
+    argon2Hash ty t m p pwd salt secret ad outlen
+      = .ok (Spec.Argon2.argon2 ty pwd salt (secret.getD []) (ad.getD []) t m p outlen) := by
+  have hmax : max m (8 * p) = m := by omega
+  rw [Proofs.Argon2.argon2Hash_ok hv hout (by rw [hmax]; exact h7),
+    Proofs.Argon2.argon2HashN_eq_spec pwd salt secret ad outlen hty hv.lanes_ge
+      (by have := hv.lanes_le; omega) hm8 (by have := hv.m_le; omega)]
+
+/-- `crypto_pwhash` computes RFC 9106 Argon2i / Argon2id with `t = opslimit`,
+`m = memlimit / 1024` KiB, one lane, no secret, no associated data. -/
+theorem cryptoPwhash_eq_spec {outlen : Nat} {pwd salt : Bytes} {opslimit memlimit alg : Nat}
+    (halg : alg = 1 ∨ alg = 2)
+    (hv : PwhashValid outlen pwd.length salt.length opslimit memlimit)
+    (hout : outlen < 0xFFFFFFFF) (h7 : 7 * (memlimit / 1024 / 4) < 2 ^ 32 + 3) :
+    cryptoPwhash outlen pwd salt opslimit memlimit alg
+      = .ok (Spec.Argon2.argon2 alg pwd salt [] [] opslimit (memlimit / 1024) 1 outlen) := by
+  rw [Proofs.Argon2.cryptoPwhash_ok halg hv hout h7,
+    Proofs.Argon2.argon2HashN_eq_spec pwd salt none none outlen halg (by decide) (by decide)
+      (by have := hv.mem_ge; omega) (by have := hv.mem_le; omega)]
+  rfl
+
+/-- the first blocks, one pass, and the final block separately (components of the theorem above) -/
+theorem fill_block_eq_G (prev ref next : Block) (withXor : Bool) :
+    fillBlock prev ref next withXor =
+      if withXor then Spec.Argon2.xorBlock (Spec.Argon2.G prev ref) next else Spec.Argon2.G prev ref :=
+  Proofs.Argon2.fillBlock_eq prev ref next withXor
 
 end DryocVerif.Properties.C09
